@@ -37,7 +37,7 @@ theorem runFiles_nil_cons (O : Oracles) (qy : Query) (idx : JoinIndex) (w : Bool
     runFiles O qy idx w none ([] :: rest) ls = runFiles O qy idx w none rest ls := by
   simp only [runFiles, runFile, hst, hrl, Bool.or_self, Bool.false_eq_true, if_false]
 
-theorem updateLimit_noLimit_join (b : Bool) (es : EngineState) (r : Option RowOut) :
+theorem updateLimit_none_jb (b : Bool) (es : EngineState) (r : Option RowOut) :
     updateLimit b none es r = ({ es with numOut := es.numOut + (match r with
       | some out => out.rows.length
       | none => 0) }, { result := r, reachedLimit := false }) := by
@@ -96,7 +96,7 @@ theorem runFiles_select_spec (O : Oracles) (qy : Query) (q : SelectStmt) (j : Jo
               simp only [hq, hadm, Bool.not_true, Bool.false_eq_true, if_false, hlim]
               rw [lineEnvs_eq_rowsOf qy j jl idx true fl.line ki hj hki hl]
               simp only [bind, Outcome.bind, hs, pure]
-            rw [updateLimit_noLimit_join] at hx
+            rw [updateLimit_none_jb] at hx
             rw [runFiles_cons_cons O qy idx true fl f' rest ls _ _ hfl hx rfl hst hrl]
             rw [ih _ more hr' rfl (by rw [List.flatten_cons]; exact hm), ← h]
             simp only [List.flatten_cons, List.length_append, List.length_cons, List.append_assoc]
@@ -116,7 +116,7 @@ theorem runFiles_select_spec (O : Oracles) (qy : Query) (q : SelectStmt) (j : Jo
             · rfl
             · exact absurd hh ha
           simp only [hq, hadm, Bool.not_false, if_true, hlim]
-        rw [updateLimit_noLimit_join] at hx
+        rw [updateLimit_none_jb] at hx
         rw [runFiles_cons_cons O qy idx true fl f' rest ls _ _ hfl hx rfl hst hrl]
         rw [ih _ pr hr' rfl (by rw [List.flatten_cons]; exact h)]
         simp only [List.flatten_cons, List.length_append, List.length_cons, List.append_nil]
